@@ -397,6 +397,7 @@ def parse_inst(p, raw):
         if isinstance(t, VoidT): return Inst(None, 'ret', v=None)
         return Inst(None, 'ret', v=parse_value(p, t))
     if op == 'unreachable': return Inst(None, 'unreachable')
+    if op == 'fence': return Inst(None, 'call', callee=V('global', PtrT(IntT(8)), '@llvm.dbg.fence'), args=[], ty=VoidT())
     if op == 'alloca':
         t = p.type(); n = None
         if p.accept(','):
@@ -404,10 +405,10 @@ def parse_inst(p, raw):
                 nt = p.type(); n = parse_value(p, nt)
         return Inst(res, 'alloca', aty=t, n=n, ty=PtrT(t))
     if op == 'load':
-        p.accept('volatile'); t = p.type(); p.expect(','); pt = p.type(); a = parse_value(p, pt)
+        p.accept('atomic'); p.accept('volatile'); t = p.type(); p.expect(','); pt = p.type(); a = parse_value(p, pt)
         return Inst(res, 'load', ty=t, a=a)
     if op == 'store':
-        p.accept('volatile'); t = p.type(); v = parse_value(p, t); p.expect(','); pt = p.type(); a = parse_value(p, pt)
+        p.accept('atomic'); p.accept('volatile'); t = p.type(); v = parse_value(p, t); p.expect(','); pt = p.type(); a = parse_value(p, pt)
         return Inst(None, 'store', v=v, a=a)
     if op == 'getelementptr':
         p.accept('inbounds'); bt = p.type(); p.expect(','); pt = p.type(); a = parse_value(p, pt); idx = []
